@@ -1294,7 +1294,7 @@ func deconflictPkg(pkg string, renamer func(string) string) string {
 	case "errors", "runtime", "middleware", "security", "spec", "strfmt", "loads", "swag", "validate":
 		fallthrough
 	// package conflict with stdlib/other lib imports
-	case "tls", "http", "fmt", "strings", "log", "flags", "pflag", "json", "time":
+	case "tls", "http", "fmt", "strings", "log", "flags", "pflag", "json", "time", "context", "io":
 		return renamer(pkg)
 	}
 
